@@ -146,6 +146,7 @@ def parse_obs(path):
             elif t == 'QUIET2': blk['quiet2'] = f[1] == '1'
             elif t == 'QUIET3': blk['quiet3'] = f[1] == '1'
             elif t == 'WF': blk['wf'] = f[1] == '1'
+            elif t == 'QMAL': blk['qmal'] = (int(f[1]), f[2] if len(f) > 2 else '-')
             elif t == 'PROBE': blk['probe'] = [tuple(x.split('=')) for x in f[1:]]
             elif t == 'VCOM': blk['vcom'] = dict((int(x.split(':')[0]), x.split(':')[1:]) for x in f[1:])
     return hs
@@ -593,6 +594,8 @@ def oracle_C18(hi, ops, obs):
         if b['halt'] or 'qry' not in b or b.get('synthetic'): continue
         if b['qry'].get(-1) != 'err':
             out.append(Viol(hi, b['h'], 'malformed-address-answered', str(b['qry'].get(-1))))
+        if b.get('qmal') and b['qmal'][0] > 0:
+            out.append(Viol(hi, b['h'], 'malformed-address-answered', f"{b['qmal'][0]} malformed arguments answered without error, first: {b['qmal'][1]}"))
         for op in range(10):
             q = b['qry'].get(op); v = b['vals'].get(op)
             if v is None:
